@@ -221,6 +221,18 @@ def f4(ctx):
                     n_acc += 1
                     ls = frozenset(strip(f) for f in implied_facts([(v, ("eq", 1))]))
                     out.extend(c | ls for c in base)
+                elif (tag(v) == "variant-is" and tag(v[1]) == "vsum" and len(v[1]) > 3 and v[1][3][0] == "from" and len(v[1][3][1]) == 1
+                      and str(v[1][3][1][-1]).startswith(b_.name + "@")):
+                    # `helper(..).is_continue()` with the helper's exits inlined: accepted along the exits that built that variant
+                    jb = int(str(v[1][3][1][-1]).split("@")[-1])
+                    n_acc += 1
+                    for nm, origin in v[1][3][2]:
+                        if nm != v[2]:
+                            continue
+                        d_ = D.block_dnf(ev_, r_, b_, r["bb"], lit=lit, forced=((jb, origin),))
+                        if d_ is None:
+                            return None, 0
+                        out.extend(d_)
                 else:
                     return None, 0
             return out, n_acc
